@@ -668,7 +668,8 @@ def meta_oracle(case, out):
     """the property text on the real observations"""
     f = _fields(out)
     tag = "%s.%s" % (case["est"], case["meth"])
-    cix = "@cell-index" if case.get("tix", "default") != "default" else ""    # nested cells carry a non-default index
+    # nested cells carry a non-default time index and the estimator does not convert them to a 3-D array first
+    cix = "@cell-index" if case.get("tix", "default") != "default" and meta_cfg(case)[1] != "numpy" else ""
     if f.get("fit") != "ok":
         return [("%s:valid-fit-rejected:%s%s" % (tag, f.get("fit"), cix), out)] if case.get("valid") else []
     if f["b"] != "ok":
